@@ -218,23 +218,24 @@ Fixpoint rle_decode_aux (fuel : nat) (w : nat) (n : nat) (bs : list N) : option 
     | Some (h, rest) =>
       if (h =? 0)%N then Some [] else
       if N.even h then
-        let c := N.to_nat ((h / 2) mod 2^32) in                 (* rle_left : u32 *)
+        let cN := ((h / 2) mod 2^32)%N in                          (* rle_left : u32 *)
         if (length rest <? vbytes w)%nat then None else
         let v := le_value (firstn (vbytes w) rest) in
-        let k := Nat.min n c in
+        let k := N.to_nat (N.min (N.of_nat n) cN) in
         match rle_decode_aux fuel w (n - k) (skipn (vbytes w) rest) with
         | None => None
         | Some r => Some (repeat v k ++ r)
         end
       else
-        let c := N.to_nat (((h / 2) * 8) mod 2^32) in           (* bit_packed_left : u32 *)
-        let avail := if (w =? 0)%nat then c else ((8 * length rest) / w)%nat in
-        let k := Nat.min (Nat.min n c) avail in
+        let cN := (((h / 2) * 8) mod 2^32)%N in                    (* bit_packed_left : u32 *)
+        let availN := if (w =? 0)%nat then cN else N.of_nat ((8 * length rest) / w) in
+        let kN := N.min (N.min (N.of_nat n) cN) availN in
+        let k := N.to_nat kN in
         if (k =? 0)%nat then rle_decode_aux fuel w n rest     (* truncated final block: run dropped *)
         else
           let vals := unpack w k (bytes_bits rest) in
           (* a run cut short by the end of the buffer leaves the reader at the next byte boundary *)
-          let consumed := if (k <? c)%nat then ((k * w + 7) / 8)%nat else (c / 8 * w)%nat in
+          let consumed := if (kN <? cN)%N then ((k * w + 7) / 8)%nat else (N.to_nat (cN / 8) * w)%nat in
           match rle_decode_aux fuel w (n - k) (skipn consumed rest) with
           | None => None
           | Some r => Some (vals ++ r)
